@@ -15,8 +15,10 @@ import (
 	"os"
 	"path/filepath"
 	"regexp"
+	"sort"
 	"strings"
 	"sync"
+	"time"
 
 	"github.com/tailscale/setec/acl"
 	"github.com/tailscale/setec/audit"
@@ -123,9 +125,11 @@ type Sink struct {
 	Recs []AuditRec
 	// fault plan: fail the k-th (0-based) non-observer write from now
 	FailAt   int // -1: never
-	FailKind int // 0 write error, 1 short write, 2 sync error
+	FailKind int // 0 write error, 1 short write, 2 sync error, 3 slow sync, 4 slow write (no error: the call just takes StallD)
+	StallD   time.Duration
 	n        int
 	failSync bool
+	slowSync time.Duration
 	Stream   []byte            // every byte the sink accepted, torn fragments included (an append-only file)
 	OnWrite  func(data []byte) // called before recording (order oracle)
 	OnSync   func()
@@ -147,6 +151,10 @@ func (k *Sink) Write(p []byte) (int, error) {
 	k.mu.Unlock()
 	if k.OnWrite != nil {
 		k.OnWrite(p)
+	}
+	if fail && kind == 4 {
+		e.S.Fault("audit-slow-write")
+		time.Sleep(k.StallD)
 	}
 	if fail && kind == 0 {
 		e.S.Fault("audit-write-error")
@@ -174,6 +182,9 @@ func (k *Sink) Write(p []byte) (int, error) {
 	if fail && kind == 2 {
 		k.failSync = true
 	}
+	if fail && kind == 3 {
+		k.slowSync = k.StallD
+	}
 	k.mu.Unlock()
 	return len(p), nil
 }
@@ -190,6 +201,15 @@ func (k *Sink) Sync() error {
 	k.mu.Unlock()
 	if e.parkAudit {
 		e.S.Park("audit", "sink.Sync", nil, nil, nil)
+	}
+	k.mu.Lock()
+	slow := k.slowSync
+	k.slowSync = 0
+	k.mu.Unlock()
+	if slow > 0 {
+		// the volume is slow, not broken: the flush takes its time and succeeds
+		e.S.Fault("audit-slow-sync")
+		time.Sleep(slow)
 	}
 	k.mu.Lock()
 	fs := k.failSync
@@ -224,7 +244,9 @@ type Caller struct {
 	Tags  []string
 	// WhoIs behaviour for HTTP runs
 	LegacyCap bool // grants under the https:// capability name
-	dbc       db.Caller
+	// Headers are added to every request this caller sends
+	Headers map[string]string
+	dbc     db.Caller
 }
 
 func (c *Caller) principal() audit.Principal {
@@ -297,6 +319,8 @@ type Env struct {
 	observing    bool
 	auditLatched bool   // an audit write failed and the process was not restarted
 	diskFaultRun bool   // this run injects disk-full calls
+	nLinks       int
+	hugeRun      bool // values beyond a mebibyte occur in this run
 	laxIno       uint64 // inode of the database file an operator gave a lax mode (0: none)
 	parkAudit    bool
 	parkHTTP     bool
@@ -449,6 +473,18 @@ func (e *Env) MakeCallers(n int, patterns []string) {
 	for i := 1; i <= n; i++ {
 		c := mk(i, e.drawRules(patterns))
 		c.LegacyCap = e.T.Bool(1, 5)
+		if e.T.Bool(1, 4) {
+			// a peer on the server's own machine (tailscaled knows those too)
+			c.Addr = []string{"127.0.0.1", "[::1]", "127.0.0.53"}[e.T.Choice(3)] + fmt.Sprintf(":%d", 40000+i)
+			c.dbc.Principal = c.principal()
+		}
+		if e.T.Bool(1, 3) {
+			// a peer that decorates its requests with headers naming somebody
+			// else (the superuser): proxies' headers are not the tailnet's word
+			sup := "100.64.0.1"
+			c.Headers = map[string]string{"X-Forwarded-For": sup, "X-Real-Ip": sup, "Forwarded": "for=" + sup,
+				"Tailscale-User-Login": "user0@example.com", "X-Forwarded-Host": "setec.sim", "X-Remote-Addr": sup + ":40000"}
+		}
 		e.Callers = append(e.Callers, c)
 	}
 }
@@ -500,6 +536,22 @@ func (e *Env) whoIs(ctx context.Context, addr string) (*apitype.WhoIsResponse, e
 		}
 	}
 	if c == nil {
+		// like tailscaled: an address whose port is unknown is looked up by IP
+		if ap, err := netip.ParseAddrPort(addr); err == nil {
+			for _, x := range e.Callers {
+				if xp, err := netip.ParseAddrPort(x.Addr); err == nil && xp.Addr() == ap.Addr() {
+					c = x
+				}
+			}
+		} else if ip, err := netip.ParseAddr(addr); err == nil {
+			for _, x := range e.Callers {
+				if xp, err := netip.ParseAddrPort(x.Addr); err == nil && xp.Addr() == ip {
+					c = x
+				}
+			}
+		}
+	}
+	if c == nil {
 		return nil, errors.New("sim: unknown peer")
 	}
 	e.opMu.Lock()
@@ -543,6 +595,15 @@ func (e *Env) whoIs(ctx context.Context, addr string) (*apitype.WhoIsResponse, e
 	return resp, nil
 }
 
+func sortedKeys(m map[string]string) []string {
+	var ks []string
+	for k := range m {
+		ks = append(ks, k)
+	}
+	sort.Strings(ks)
+	return ks
+}
+
 // ---- in-process HTTP transport ----
 
 // Corruption describes how the next request is damaged on the way.
@@ -571,6 +632,9 @@ func (e *Env) transport(c *Caller) func(*http.Request) (*http.Response, error) {
 		method := r.Method
 		path := r.URL.Path
 		hdr := r.Header.Clone()
+		for _, k := range sortedKeys(c.Headers) {
+			hdr.Set(k, c.Headers[k])
+		}
 		var cor *Corruption
 		if e.curOps == nil {
 			cor = e.Corrupt
